@@ -108,9 +108,10 @@ def opFault (op : String) (a : Args) : Option String := do
   let kind : IoKind ← (match a.get? "kind" with
     | none => some .injected
     | some n => parseKind n)
-  -- `Interrupted` inside std's retry loops: the streaming ops (`M.retried`) and the seekable reader (`MI`) describe it;
-  -- the writer does not yet
-  if op == "fault.write" && kind == .interrupted && fa.isSome then some "oracle-only" else
+  -- `Interrupted` inside std's retry loops: the streaming ops (`M.retried`), the seekable reader and the writer (the `MI`
+  -- instances of the generic parsers / the generic writer) describe it.  Not described: COMPRESSING write scenarios (the
+  -- encoders' own output loops do not retry, the model coalesces their output into one `write_all`) - see the harness
+  if op == "fault.write" && kind == .interrupted && fa.isSome && ((a.get? "comp").getD "-") != "-" && ((a.get? "comp").getD "-") != "" then some "oracle-only" else
   match op with
   | "fault.enc" | "fault.writec" | "fault.writeo" | "fault.rawcopy" | "fault.streamo" | "fault.visito" => some "oracle-only"   -- cipher / codec layers are external: judged by the oracle alone
   | "fault.stream" =>
@@ -126,6 +127,10 @@ def opFault (op : String) (a : Args) : Option String := do
     let calls := ((a.get? "calls").getD "").splitOn ";"
     let ext := mkWExt (parseComp ((a.get? "comp").getD "-")) (parseZc ((a.get? "zc").getD "-"))
     let tail := fun (d : Dev) => s!" ncalls={d.calls}"
+    -- a device failing with `Interrupted`: the generic writer at `MI` (`write_all` retries; `seek` / `flush` are bare) and
+    -- `newAppendI`; every other kind: the writer model itself (= the generic writer at `M`, `GW.step_M`)
+    let intr := kind == .interrupted
+    let W : WSteps := if intr then intrSteps else modelSteps
     -- sources of raw copies: opened fault-free (the fault is on the SINK; the source reader delivers each entry whole)
     let srcs : List (Archive × Dev) := (List.range 8).filterMap fun i =>
       match a.hex? s!"src{i}" with
@@ -137,11 +142,11 @@ def opFault (op : String) (a : Args) : Option String := do
     match calls with
     | first :: rest =>
       match first.splitOn "," with
-      | ["new"] => some (runCallsF ext srcs fa tail rest WState.init (Dev.ofBytesK [] kind) ["ok"])
+      | ["new"] => some (runCallsF ext srcs fa tail W rest WState.init (Dev.ofBytesK [] kind) ["ok"])
       | ["ap", base] => do
         let b ← parseHex base
-        match newAppend fa (Dev.ofBytesK b kind) with
-        | (.ok s, d) => some (runCallsF ext srcs fa tail rest s d ["ok"])
+        match (if intr then newAppendI else newAppend) fa (Dev.ofBytesK b kind) with
+        | (.ok s, d) => some (runCallsF ext srcs fa tail W rest s d ["ok"])
         | (.err e, d) => some ((Out.className e).replace " " ":" ++ " " ++ showFinal d ++ tail d)
         | (.panic _, _) => some "panic"
       | _ => some "bad-op"
